@@ -246,6 +246,10 @@ def leU64 (b : Bytes) : UInt64 :=
 def leU32 (b : Bytes) : UInt64 :=
   (List.range 4).foldl (fun acc k => acc ||| ((b.getD k 0).toUInt64 <<< (UInt64.ofNat (8 * k)))) 0
 
+/-- `binary.PutUvarint`: seven bits per byte, least significant first, the top bit set on all but the last -/
+def uvarintBytes (x : Nat) : List UInt8 :=
+  if h : x < 128 then [UInt8.ofNat x] else UInt8.ofNat (x % 128 + 128) :: uvarintBytes (x / 128)
+
 /-- the `strconv` functions `parseNumber` calls, as modelled in `Model/Number.lean` (ParseInt and ParseUint exactly,
     ParseFloat by contract: correctly rounded, an error iff the syntax is wrong or the result is infinite).
     Results: value, `err != nil`, `errors.Is(err, strconv.ErrRange)`. -/
@@ -302,6 +306,12 @@ def extCall (name : String) (args : List Val) : Option (List Val) :=
       match FloatFmt.appendFloat v with
       | some b => some [.bytes (dst ++ b), .bool false, .bool false]
       | none => some [.bytes #[], .bool true, .bool false]
+    else if name == "PutUvarint" then
+      -- `n := binary.PutUvarint(buf, v)`: the encoding at the front of `buf`, its length, and whether it fits (the library
+      -- writes byte by byte: an encoding longer than `buf` is an index out of range, raised by the translated code)
+      let enc := uvarintBytes v.toNat
+      if enc.length ≤ dst.size then some [.bytes (enc.toArray ++ dst.extract enc.length dst.size), .int enc.length, .bool true]
+      else some [.bytes dst, .int 0, .bool false]
     else none
   | _ => none
 
